@@ -9,6 +9,7 @@ observable and checked against generic invariants.
 """
 from .. import flowcheck
 from .. import floworacle as fo
+from .. import floworacle_r3 as f3
 
 LEAN_MODULES = ['Props.C07', 'Props.Agreement', 'Props.Translated_C07']
 TRUSTED = ['harness/flow_impl.py (yaml renderer, canonicaliser, virtual clock, scripted random.uniform)',
@@ -17,7 +18,7 @@ TRUSTED = ['harness/flow_impl.py (yaml renderer, canonicaliser, virtual clock, s
            'CPython, ruamel.yaml (modelled, not verified)']
 ASSUMPTIONS = ['formatting inside decorators is restricted to the simple {key} grammar of PypyrModel/Fmt.lean',
                'context keys are strings; dict keys never mix bool/int/float',
-               'log output, real time and BaseException other than Exception subclasses are outside the observables']
+               'log output (not the log LEVEL: that is a generated input), real time and BaseException other than Exception subclasses are outside the observables']
 
 def extract(env):
     """Translate pypyr/errors.py get_error_name of the tree under test into Lean definitions (harness/translate.py ->
@@ -35,12 +36,14 @@ def run(env, res):
     res.rule = ('directed families (expectation from the property text) first, then seeded random pipelines '
                 '(1-3 pipelines, 1-4 groups, 0-4 steps per group, decorators with p~0.25 each, foreach items incl. '
                 'None/0/\'\'/False/[]/{}, 12% with a malformed group body or sequence item, 35% written in another '
-                'yaml layout: flow style, JSON, first step on line 1, other indentation); a case is '
+                'yaml layout: flow style, JSON, first step on line 1, other indentation, single-quoted / plain / block scalars, anchors + aliases, merge keys; every 4th case runs with the root logger at DEBUG, every 8th at INFO, every 8th at NOTIFY - the log level is an input); a case is '
                 'non-trivial when the model accepts it and it terminates; distinct by canonical program text')
     directed = [('c07', fo.c07_family, env.n(150, 100000)), ('c06', fo.c06_family, env.n(100, 2000)), ('c01-straight', fo.c01_family, env.n(100, 2000)),
                 ('c07-str', fo.c07_str_family, env.n(34, 100000)), ('c03-falsy-call', fo.c03_falsy_call_family, env.n(20, 100000)),
                 ('c06-fault', fo.c06_fault_family, env.n(40, 100000)),
-                ('c01-error-values', fo.c01_error_values_family, env.n(44, 100000))]
+                ('c01-error-values', fo.c01_error_values_family, env.n(44, 100000)),
+                ('c07-big-counts', f3.c07_big_family, env.n(10, 100000)),
+                ('c06-odd-errors', f3.c06_odd_errors_family, env.n(60, 100000))]
     flowcheck.run_streams(env, res, directed, env.n(600, 100000), weights={'fail': 7, 'call': 3},
                           random_monitor=flowcheck.monitor_all)
 
